@@ -153,7 +153,7 @@ def Pre (s : State) : SCall → Prop
 /-- locking an absent key: both sides answer `guard` at once -/
 theorem sim_lock_absent (s : State) (sp : Spec) (hi : Inv s) (hr : Rel s sp) (v : Variant) (h k : Nat)
     (hf : s.hs h = none) (hm : s.ent k = none) :
-    let r := (Api.lock ⟨s, []⟩ v h k .none 0)
+    let r := (Api.lock ⟨s, [], []⟩ v h k .none 0)
     resOut r.2.res = .guard ∧ sp.free k = true ∧ Rel r.1.s { sp with held := upd sp.held k (some h) } := by
   have hnoh : ∀ x, hkey (s.hs x) ≠ some k := by
     intro x e
@@ -167,10 +167,10 @@ theorem sim_lock_absent (s : State) (sp : Spec) (hi : Inv s) (hr : Rel s sp) (v 
       | none => rfl
       | some x => exact absurd ((hr.held k x).1 hh).1 (hnoh x)
     · rw [hr.wait k]; simp [waitingOf, hm]
-  have hst : (Api.lock ⟨s, []⟩ v h k .none 0) =
+  have hst : (Api.lock ⟨s, [], []⟩ v h k .none 0) =
       (⟨{ s with ent := upd s.ent k (some ⟨s.nextE, none, some h, [], [h]⟩),
                  hs := upd s.hs h (some ⟨k, s.nextE, .holding⟩),
-                 order := s.order ++ [k], nextE := s.nextE + 1 }, []⟩, ⟨[], .guard⟩) := by
+                 order := s.order ++ [k], nextE := s.nextE + 1 }, [], []⟩, ⟨[], .guard⟩) := by
     simp [Api.lock, Api.lockPrelude, lookup, hi.notWedged, hf, hm, upd]
   rw [hst]
   refine ⟨rfl, hfree, ?_⟩
@@ -288,7 +288,7 @@ theorem waitingOf_eq (s : State) (k : Nat) (m : Entry) (hm : s.ent k = some m) :
 /-- locking a present, free key: guard at once -/
 theorem sim_lock_free (s : State) (sp : Spec) (hi : Inv s) (hr : Rel s sp) (v : Variant) (h k : Nat) (m : Entry)
     (hf : s.hs h = none) (hm : s.ent k = some m) (hfree : m.holder = none) :
-    let r := (Api.lock ⟨s, []⟩ v h k .none 0)
+    let r := (Api.lock ⟨s, [], []⟩ v h k .none 0)
     resOut r.2.res = .guard ∧ Rel r.1.s { sp with held := upd sp.held k (some h) } ∧ Inv r.1.s := by
   have hlk : (lookup s h k) = ((s.clone h k m).touch k, .unit) := by
     simp [lookup, hi.notWedged, hf, hm]
@@ -299,7 +299,7 @@ theorem sim_lock_free (s : State) (sp : Spec) (hi : Inv s) (hr : Rel s sp) (v : 
   have heo : ((s.clone h k m).touch k).entryOf ⟨k, m.eid, .replica⟩ = some { m with refs := h :: m.refs } := by
     simp [State.entryOf, hent]
   let s' := (((s.clone h k m).touch k).setEnt k { m with refs := h :: m.refs, holder := some h }).setSt h ⟨k, m.eid, .replica⟩ .holding
-  have hst : (Api.lock ⟨s, []⟩ v h k .none 0) = (⟨s', []⟩, ⟨[], .guard⟩) := by
+  have hst : (Api.lock ⟨s, [], []⟩ v h k .none 0) = (⟨s', [], []⟩, ⟨[], .guard⟩) := by
     cases v <;> simp [Api.lock, Api.lockPrelude, hlk, hhs, enqueue, tryKey, heo, hfree, s']
   have hinv : Inv s' := by
     have h1 : Inv ((s.clone h k m).touch k) := by have := inv_lookup s h k hi; rw [hlk] at this; exact this
@@ -344,7 +344,7 @@ theorem sim_lock_free (s : State) (sp : Spec) (hi : Inv s) (hr : Rel s sp) (v : 
 /-- a waiting acquisition on a key that is held or awaited: queued at the end -/
 theorem sim_lock_wait_held (s : State) (sp : Spec) (hi : Inv s) (hr : Rel s sp) (h k : Nat) (m : Entry)
     (hf : s.hs h = none) (hm : s.ent k = some m) (hheld : m.holder ≠ none) :
-    let r := (Api.lock ⟨s, []⟩ .wait h k .none 0)
+    let r := (Api.lock ⟨s, [], []⟩ .wait h k .none 0)
     resOut r.2.res = .pending ∧ Rel r.1.s { sp with waiting := updL sp.waiting k (sp.waiting k ++ [h]) } ∧ Inv r.1.s := by
   have hlk : (lookup s h k) = ((s.clone h k m).touch k, .unit) := by
     simp [lookup, hi.notWedged, hf, hm]
@@ -356,7 +356,7 @@ theorem sim_lock_wait_held (s : State) (sp : Spec) (hi : Inv s) (hr : Rel s sp) 
     simp [State.entryOf, hent]
   have hsome : m.holder.isNone = false := by cases hx : m.holder <;> simp_all
   let s' := (((s.clone h k m).touch k).setEnt k { m with refs := h :: m.refs, queue := m.queue ++ [h] }).setSt h ⟨k, m.eid, .replica⟩ .queued
-  have hst : (Api.lock ⟨s, []⟩ .wait h k .none 0) = (⟨s', []⟩, ⟨[], .pending⟩) := by
+  have hst : (Api.lock ⟨s, [], []⟩ .wait h k .none 0) = (⟨s', [], []⟩, ⟨[], .pending⟩) := by
     simp [Api.lock, Api.lockPrelude, hlk, hhs, enqueue, heo, hsome, s']
   have hinv : Inv s' := by
     have h1 : Inv ((s.clone h k m).touch k) := by have := inv_lookup s h k hi; rw [hlk] at this; exact this
@@ -399,7 +399,7 @@ theorem sim_lock_wait_held (s : State) (sp : Spec) (hi : Inv s) (hr : Rel s sp) 
 /-- a try on a key that is held or awaited: `none`, and nothing changes (except lru recency) -/
 theorem sim_lock_try_held (s : State) (sp : Spec) (hi : Inv s) (hr : Rel s sp) (h k : Nat) (m : Entry)
     (hf : s.hs h = none) (hm : s.ent k = some m) (hheld : m.holder ≠ none) :
-    let r := (Api.lock ⟨s, []⟩ .try h k .none 0)
+    let r := (Api.lock ⟨s, [], []⟩ .try h k .none 0)
     resOut r.2.res = .none ∧ Rel r.1.s sp ∧ Inv r.1.s := by
   have hlk : (lookup s h k) = ((s.clone h k m).touch k, .unit) := by
     simp [lookup, hi.notWedged, hf, hm]
@@ -419,7 +419,7 @@ theorem sim_lock_try_held (s : State) (sp : Spec) (hi : Inv s) (hr : Rel s sp) (
   have heo2 : s1.entryOf ⟨k, m.eid, .failedTry⟩ = some { m with refs := h :: m.refs } := by
     simp [s1, State.entryOf, State.setSt, hent]
   have hsp := cleanupFailed_spec s1 h ⟨k, m.eid, .failedTry⟩ _ hi2 hh2 rfl heo2
-  have hres : (Api.lock ⟨s, []⟩ .try h k .none 0) = (⟨(cleanupFailed s1 h).1, []⟩, ⟨[], .none⟩) := by
+  have hres : (Api.lock ⟨s, [], []⟩ .try h k .none 0) = (⟨(cleanupFailed s1 h).1, [], []⟩, ⟨[], .none⟩) := by
     simp only [Api.lock, Api.lockPrelude, hlk, hhs, htk, hsp.1]
     simp
   rw [hres]
@@ -498,12 +498,12 @@ theorem queued_facts (s : State) (sp : Spec) (hi : Inv s) (hr : Rel s sp) (h k :
 
 theorem sim_poll (s : State) (sp : Spec) (hi : Inv s) (hr : Rel s sp) (h k : Nat)
     (hpre : s.hs h ≠ none ∧ hkey (s.hs h) = some k ∧ hst (s.hs h) = some .queued) :
-    let r := (Api.exec ⟨s, []⟩ (.poll h))
+    let r := (Api.exec ⟨s, [], []⟩ (.poll h))
     resOut r.2.res = (specExec sp (.poll h k)).2 ∧ Rel r.1.s (specExec sp (.poll h k)).1 ∧ Inv r.1.s := by
   obtain ⟨hd, m, e1, e2, e3, hm, heo, hiff⟩ := queued_facts s sp hi hr h k hpre
   by_cases hho : m.holder = some h
   · have hc := hiff.1 hho
-    have hst : (Api.exec ⟨s, []⟩ (.poll h)) = (⟨s.setSt h hd .holding, []⟩, ⟨[], .guard⟩) := by
+    have hst : (Api.exec ⟨s, [], []⟩ (.poll h)) = (⟨s.setSt h hd .holding, [], []⟩, ⟨[], .guard⟩) := by
       simp [Api.exec, acquire, e1, e3, heo, hho]
     have hinv : Inv (s.setSt h hd .holding) := by
       have := inv_acquire s h hi; simp only [acquire, e1, e3, heo, hho] at this; exact this
@@ -545,7 +545,7 @@ theorem sim_poll (s : State) (sp : Spec) (hi : Inv s) (hr : Rel s sp) (h k : Nat
       cases hx : ((sp.held k).isNone && (sp.waiting k).head? == some h) with
       | false => rfl
       | true => exact absurd (hiff.2 hx) hho
-    have hst : (Api.exec ⟨s, []⟩ (.poll h)) = (⟨s, []⟩, ⟨[], .pending⟩) := by
+    have hst : (Api.exec ⟨s, [], []⟩ (.poll h)) = (⟨s, [], []⟩, ⟨[], .pending⟩) := by
       simp [Api.exec, acquire, e1, e3, heo, hho]
     rw [hst]
     simp only [specExec, hc]
@@ -574,12 +574,12 @@ theorem holding_facts (s : State) (hi : Inv s) (h k : Nat)
 
 theorem sim_op (s : State) (sp : Spec) (hi : Inv s) (hr : Rel s sp) (h k : Nat) (g : GOp)
     (hpre : s.hs h ≠ none ∧ hkey (s.hs h) = some k ∧ hst (s.hs h) = some .holding) :
-    let r := (Api.exec ⟨s, []⟩ (.op h g))
+    let r := (Api.exec ⟨s, [], []⟩ (.op h g))
     resOut r.2.res = (specExec sp (.op h k g)).2 ∧ Rel r.1.s (specExec sp (.op h k g)).1 ∧ Inv r.1.s := by
   obtain ⟨hd, m, e1, e2, e3, hm, heo, hho⟩ := holding_facts s hi h k hpre
   have hv : sp.vals k = m.value.map (·.val) := by rw [← hr.vals k]; simp [absVal, hm, valOf]
   have hinv : Inv (gop s h g).1 := inv_gop s h g hi
-  simp only [Api.exec]
+  simp only [Api.exec, Api.ownedBySusp_nil, Bool.false_eq_true, ↓reduceIte]
   refine ⟨?_, ?_, hinv⟩
   · -- outputs agree
     subst e2
@@ -631,11 +631,11 @@ theorem release_ent_other (s : State) (h : Nat) (hd : Handle) (x : Nat) (hh : s.
 /-- what dropping the guard `h` of key `k` does to the entry of `k` -/
 theorem dropGuard_ent_k (s : State) (hi : Inv s) (h : Nat) (hd : Handle) (m : Entry)
     (e1 : s.hs h = some hd) (e3 : hd.st = .holding) (hm : s.ent hd.key = some m) (heo : s.entryOf hd = some m) :
-    let s' := (Api.dropGuard ⟨s, []⟩ h).1.s
+    let s' := (Api.dropGuard ⟨s, [], []⟩ h).1.s
     (s'.ent hd.key = none ∧ m.queue = []) ∨
     (∃ m', s'.ent hd.key = some m' ∧ m'.holder = m.queue.head? ∧ m'.queue = m.queue.tail) := by
   intro s'
-  have hs' : s' = (if (stamp s h).2 = .unit then (release (stamp s h).1 h).1 else (stamp s h).1) := dropGuard_s ⟨s, []⟩ h
+  have hs' : s' = (if (stamp s h).2 = .unit then (release (stamp s h).1 h).1 else (stamp s h).1) := dropGuard_s ⟨s, [], []⟩ h
   have hs1 : (stamp s h).2 = .unit := by simp [stamp, e1, e3, heo]
   rw [if_pos hs1] at hs'
   -- the state after `stamp`
@@ -683,11 +683,11 @@ theorem dropGuard_ent_k (s : State) (hi : Inv s) (h : Nat) (hd : Handle) (m : En
 
 theorem sim_drop (s : State) (sp : Spec) (hi : Inv s) (hr : Rel s sp) (h k : Nat)
     (hpre : s.hs h ≠ none ∧ hkey (s.hs h) = some k ∧ hst (s.hs h) = some .holding) :
-    let r := (Api.exec ⟨s, []⟩ (.drop h))
+    let r := (Api.exec ⟨s, [], []⟩ (.drop h))
     resOut r.2.res = (specExec sp (.drop h k)).2 ∧ Rel r.1.s (specExec sp (.drop h k)).1 ∧ Inv r.1.s := by
   obtain ⟨hd, m, e1, e2, e3, hm, heo, hho⟩ := holding_facts s hi h k hpre
   subst e2
-  have hout : (Api.dropGuard ⟨s, []⟩ h).2 = .unit := by
+  have hout : (Api.dropGuard ⟨s, [], []⟩ h).2 = .unit := by
     unfold Api.dropGuard
     have hs1 : (stamp s h).2 = .unit := by simp [stamp, e1, e3, heo]
     have hrel := release_noFail (stamp s h).1 h (inv_stamp s h hi)
@@ -711,12 +711,12 @@ theorem sim_drop (s : State) (sp : Spec) (hi : Inv s) (hr : Rel s sp) (h k : Nat
       simp only [hi1.notWedged, Bool.false_eq_true, ↓reduceIte, hb, heo1]
       repeat' split
       all_goals rfl
-  have hinv : Inv (Api.dropGuard ⟨s, []⟩ h).1.s := inv_dropGuard ⟨s, []⟩ h hi
-  simp only [Api.exec, hout, specExec]
+  have hinv : Inv (Api.dropGuard ⟨s, [], []⟩ h).1.s := inv_dropGuard ⟨s, [], []⟩ h hi
+  simp only [Api.exec, Api.ownedBySusp_nil, Bool.false_eq_true, ↓reduceIte, hout, specExec]
   refine ⟨rfl, ?_, hinv⟩
-  have hgone := dropGuard_gone ⟨s, []⟩ h hd hi e1 e3
-  have hother : ∀ g, g ≠ h → (Api.dropGuard ⟨s, []⟩ h).1.s.hs g = s.hs g := fun g hg => dropGuard_hs_other ⟨s, []⟩ h g hg
-  have hentx : ∀ x, x ≠ hd.key → (Api.dropGuard ⟨s, []⟩ h).1.s.ent x = s.ent x := by
+  have hgone := dropGuard_gone ⟨s, [], []⟩ h hd hi e1 e3
+  have hother : ∀ g, g ≠ h → (Api.dropGuard ⟨s, [], []⟩ h).1.s.hs g = s.hs g := fun g hg => dropGuard_hs_other ⟨s, [], []⟩ h g hg
+  have hentx : ∀ x, x ≠ hd.key → (Api.dropGuard ⟨s, [], []⟩ h).1.s.ent x = s.ent x := by
     intro x hx
     rw [dropGuard_s]
     have hs1 : (stamp s h).2 = .unit := by simp [stamp, e1, e3, heo]
@@ -731,7 +731,7 @@ theorem sim_drop (s : State) (sp : Spec) (hi : Inv s) (hr : Rel s sp) (h k : Nat
   · intro x _; rfl
   · intro x hx; simp [upd, hx]
   · intro x _; rfl
-  · rw [absVal_dropGuard ⟨s, []⟩ h hd.key hi]; exact hr.vals hd.key
+  · rw [absVal_dropGuard ⟨s, [], []⟩ h hd.key hi]; exact hr.vals hd.key
   · intro g
     simp only [upd, ↓reduceIte]
     constructor
@@ -839,14 +839,14 @@ theorem cancel_ent_k (s : State) (hi : Inv s) (h : Nat) (hd : Handle) (m : Entry
 
 theorem sim_cancel (s : State) (sp : Spec) (hi : Inv s) (hr : Rel s sp) (h k : Nat)
     (hpre : s.hs h ≠ none ∧ hkey (s.hs h) = some k ∧ hst (s.hs h) = some .queued) :
-    let r := (Api.exec ⟨s, []⟩ (.cancel h))
+    let r := (Api.exec ⟨s, [], []⟩ (.cancel h))
     resOut r.2.res = (specExec sp (.cancel h k)).2 ∧ Rel r.1.s (specExec sp (.cancel h k)).1 ∧ Inv r.1.s := by
   obtain ⟨hd, m, e1, e2, e3, hm, heo, _⟩ := queued_facts s sp hi hr h k hpre
   subst e2
   obtain ⟨hout, hgone, hent⟩ := cancel_ent_k s hi h hd m e1 e3 hm heo
-  have hexec : (Api.exec ⟨s, []⟩ (.cancel h)).2.res = .ok ∧ (Api.exec ⟨s, []⟩ (.cancel h)).1.s = (cancel s h).1 := by
+  have hexec : (Api.exec ⟨s, [], []⟩ (.cancel h)).2.res = .ok ∧ (Api.exec ⟨s, [], []⟩ (.cancel h)).1.s = (cancel s h).1 := by
     simp [Api.exec, Api.cancelHandle, hout, woken_s]
-  show resOut (Api.exec ⟨s, []⟩ (.cancel h)).2.res = _ ∧ Rel (Api.exec ⟨s, []⟩ (.cancel h)).1.s _ ∧ Inv (Api.exec ⟨s, []⟩ (.cancel h)).1.s
+  show resOut (Api.exec ⟨s, [], []⟩ (.cancel h)).2.res = _ ∧ Rel (Api.exec ⟨s, [], []⟩ (.cancel h)).1.s _ ∧ Inv (Api.exec ⟨s, [], []⟩ (.cancel h)).1.s
   rw [hexec.1, hexec.2]
   simp only [specExec]
   refine ⟨rfl, ?_, inv_cancel s h hi⟩
@@ -905,10 +905,10 @@ theorem sim_cancel (s : State) (sp : Spec) (hi : Inv s) (hr : Rel s sp) (h k : N
 
 
 theorem inv_exec_lock (s : State) (hi : Inv s) (v : Variant) (h k : Nat) (hf : s.hs h = none) :
-    Inv (Api.lock ⟨s, []⟩ v h k .none 0).1.s := by
+    Inv (Api.lock ⟨s, [], []⟩ v h k .none 0).1.s := by
   cases hm : s.ent k with
   | none =>
-    have hst : (Api.lock ⟨s, []⟩ v h k .none 0).1.s = (lookup s h k).1 := by
+    have hst : (Api.lock ⟨s, [], []⟩ v h k .none 0).1.s = (lookup s h k).1 := by
       simp [Api.lock, Api.lockPrelude, lookup, hi.notWedged, hf, hm, upd]
     rw [hst]; exact inv_lookup s h k hi
   | some m =>
@@ -923,7 +923,7 @@ theorem inv_exec_lock (s : State) (hi : Inv s) (v : Variant) (h k : Nat) (hf : s
       have h1 : Inv ((s.clone h k m).touch k) := by have := inv_lookup s h k hi; rw [hlk] at this; exact this
       have h2 := inv_enqueue _ h h1
       simp only [enqueue, hhs, heo, hfree] at h2
-      have hst : (Api.lock ⟨s, []⟩ v h k .none 0).1.s =
+      have hst : (Api.lock ⟨s, [], []⟩ v h k .none 0).1.s =
           (((s.clone h k m).touch k).setEnt k { m with refs := h :: m.refs, holder := some h }).setSt h ⟨k, m.eid, .replica⟩ .holding := by
         cases v <;> simp [Api.lock, Api.lockPrelude, hlk, hhs, enqueue, tryKey, heo, hfree]
       rw [hst]; exact h2
@@ -939,7 +939,7 @@ theorem inv_exec_lock (s : State) (hi : Inv s) (v : Variant) (h k : Nat) (hf : s
         have h1 : Inv ((s.clone h k m).touch k) := by have := inv_lookup s h k hi; rw [hlk] at this; exact this
         have h2 := inv_enqueue _ h h1
         simp only [enqueue, hhs, heo, hsome] at h2
-        have hst : (Api.lock ⟨s, []⟩ .wait h k .none 0).1.s =
+        have hst : (Api.lock ⟨s, [], []⟩ .wait h k .none 0).1.s =
             (((s.clone h k m).touch k).setEnt k { m with refs := h :: m.refs, queue := m.queue ++ [h] }).setSt h ⟨k, m.eid, .replica⟩ .queued := by
           simp [Api.lock, Api.lockPrelude, hlk, hhs, enqueue, heo, hsome]
         rw [hst]; exact h2
@@ -961,17 +961,17 @@ theorem inv_exec_lock (s : State) (hi : Inv s) (v : Variant) (h k : Nat) (hf : s
         have heo2 : (((s.clone h k m).touch k).setSt h ⟨k, m.eid, .replica⟩ .failedTry).entryOf ⟨k, m.eid, .failedTry⟩ =
             some { m with refs := h :: m.refs } := by simp [State.entryOf, State.setSt, hent]
         have hsp := cleanupFailed_spec _ h ⟨k, m.eid, .failedTry⟩ _ hi2 hh2 rfl heo2
-        have hst : (Api.lock ⟨s, []⟩ .try h k .none 0).1.s =
+        have hst : (Api.lock ⟨s, [], []⟩ .try h k .none 0).1.s =
             (cleanupFailed (((s.clone h k m).touch k).setSt h ⟨k, m.eid, .replica⟩ .failedTry) h).1 := by
           simp only [Api.lock, Api.lockPrelude, hlk, hhs, htk, hsp.1]; simp
         rw [hst]; exact inv_cleanupFailed _ h hi2
 
-theorem lock_streams (s : State) (v : Variant) (h k : Nat) : (Api.lock ⟨s, []⟩ v h k .none 0).1.streams = [] := by
+theorem lock_streams (s : State) (v : Variant) (h k : Nat) : (Api.lock ⟨s, [], []⟩ v h k .none 0).1.streams = [] := by
   simp only [Api.lock, Api.lockPrelude]
   repeat' split
   all_goals rfl
 
-theorem exec_streams (s : State) (c : SCall) : (Api.exec ⟨s, []⟩ c.toCall).1.streams = [] := by
+theorem exec_streams (s : State) (c : SCall) : (Api.exec ⟨s, [], []⟩ c.toCall).1.streams = [] := by
   cases c with
   | lockWait h k => exact lock_streams s .wait h k
   | lockTry h k => exact lock_streams s .try h k
@@ -982,17 +982,17 @@ theorem exec_streams (s : State) (c : SCall) : (Api.exec ⟨s, []⟩ c.toCall).1
     all_goals simp_all [Api.woken]
     all_goals (repeat' split) <;> simp_all
   | drop h k =>
-    simp only [SCall.toCall, Api.exec, Api.dropGuard]
+    simp only [SCall.toCall, Api.exec, Api.dropGuard, Api.ownedBySusp_nil, Bool.false_eq_true, ↓reduceIte]
     repeat' split
     all_goals simp_all [Api.woken]
     all_goals (repeat' split) <;> simp_all
-  | op h k g => simp [SCall.toCall, Api.exec]
+  | op h k g => simp [SCall.toCall, Api.exec, Api.ownedBySusp_nil]
 
 /-- **Theorem B, one call**: from related states, the concrete call and the abstract call give the same
 observable result and lead to related states (and the invariant is kept). -/
 theorem refines_step (s : State) (sp : Spec) (hi : Inv s) (hr : Rel s sp) (c : SCall) (hpre : Pre s c) :
-    resOut (Api.exec ⟨s, []⟩ c.toCall).2.res = (specExec sp c).2 ∧
-    Rel (Api.exec ⟨s, []⟩ c.toCall).1.s (specExec sp c).1 ∧ Inv (Api.exec ⟨s, []⟩ c.toCall).1.s := by
+    resOut (Api.exec ⟨s, [], []⟩ c.toCall).2.res = (specExec sp c).2 ∧
+    Rel (Api.exec ⟨s, [], []⟩ c.toCall).1.s (specExec sp c).1 ∧ Inv (Api.exec ⟨s, [], []⟩ c.toCall).1.s := by
   cases c with
   | lockWait h k =>
     have hf : s.hs h = none := hpre
@@ -1038,11 +1038,11 @@ theorem refines_step (s : State) (sp : Spec) (hi : Inv s) (hr : Rel s sp) (c : S
 /-- a history of abstract calls whose preconditions hold along the concrete run -/
 def WF : State → List SCall → Prop
   | _, [] => True
-  | s, c :: cs => Pre s c ∧ WF (Api.exec ⟨s, []⟩ c.toCall).1.s cs
+  | s, c :: cs => Pre s c ∧ WF (Api.exec ⟨s, [], []⟩ c.toCall).1.s cs
 
 def runApi (s : State) : List SCall → List SOut
   | [] => []
-  | c :: cs => resOut (Api.exec ⟨s, []⟩ c.toCall).2.res :: runApi (Api.exec ⟨s, []⟩ c.toCall).1.s cs
+  | c :: cs => resOut (Api.exec ⟨s, [], []⟩ c.toCall).2.res :: runApi (Api.exec ⟨s, [], []⟩ c.toCall).1.s cs
 
 def runSpec (sp : Spec) : List SCall → List SOut
   | [] => []
